@@ -54,7 +54,7 @@ type config struct {
 	timeoutMs int
 	// fault knobs in percent per opportunity (0 = off)
 	byz     int // a Byzantine frame is inserted before the next honest action
-	reorder int // a frame or timer overtakes a pending mux delivery
+	reorder int // a frame overtakes a pending mux delivery
 	shuffle int // honest actions are taken out of order
 }
 
@@ -275,13 +275,17 @@ func (w *world) run() {
 	for int(r.Steps) < cfg.maxSteps && !w.stop {
 		overtake := false
 		if len(w.pending) > 0 {
-			if cfg.reorder == 0 || !w.c.Chance("overtake", cfg.reorder, 100) {
+			chance := cfg.reorder
+			if chance > 0 && w.voterSet && w.engineCtx() != w.voterCtx {
+				chance = 50 // the engine has moved on and its voter has not been told yet: the window worth exploring
+			}
+			if chance == 0 || !w.c.Chance("overtake", chance, 100) {
 				w.deliverNext()
 				continue
 			}
 			overtake = true
 		}
-		act := w.nextAction()
+		act := w.nextAction(overtake)
 		if act == nil {
 			if len(w.pending) > 0 {
 				w.deliverNext()
@@ -555,7 +559,9 @@ func (w *world) exec(a *action) {
 		}
 		counted := w.or.applyVote(t, false)
 		var herr error
+		w.or.inErr = &herr
 		w.stimulus(a.desc, t, func() { herr = w.srv.HandleMsg(t.frame, time.Now()) })
+		w.or.inErr = nil
 		if a.kind != aDup {
 			w.sent = append(w.sent, t)
 		}
